@@ -1949,9 +1949,17 @@ class Filter(Blockwise):
                     # sum is in the predicate of parent, then removing self would
                     # alter the condition of parent because the sum changes, this is
                     # only relevant in broadcasting cases
-                    return self.frame[
-                        self.predicate & parent.predicate.substitute(self, self.frame)
-                    ]
+                    predicate = parent.predicate.substitute(self, self.frame)
+                    if any(
+                        e.predicate._name == self.predicate._name
+                        for e in predicate.find_operations((Filter, FilterAlign))
+                    ):
+                        # The predicate of parent still reads rows that were filtered
+                        # like self (e.g. Index(self) is rewritten to
+                        # self.frame.index[self.predicate]), it can't be applied to
+                        # the unfiltered frame
+                        return
+                    return self.frame[self.predicate & predicate]
         if isinstance(parent, Projection):
             if self.frame._filter_passthrough_available(self, dependents):
                 # We can't push Projections through filters if the preceding operation
